@@ -49,6 +49,20 @@ def is_primitive(name):
     return name in FLOAT_PRIMS or name.startswith("PrimInt63.") or name.startswith("Uint63.") and False
 
 
+# The standard library specifies the primitive float / 63-bit integer operations by axioms (Coq.Floats.FloatAxioms:
+# add_spec, mul_spec, ..., Prim2SF_valid, SF2Prim_Prim2SF, Prim2SF_SF2Prim; Coq.Numbers.Cyclic.Int63.Uint63: add_spec,
+# of_to_Z, eqb_correct, ...).  Theorems about binary64 that go through Flocq's bridge depend on them; they are allowed
+# for the properties that opt in with the token FLOAT_SPEC and are named in the evidence.
+FLOAT_SPEC = "@float-spec"
+FLOAT_SPEC_RE = re.compile(r"^(FloatAxioms\.)?(\w+_spec|Prim2SF_valid|SF2Prim_Prim2SF|Prim2SF_SF2Prim|Prim2SF_inj|SF2Prim_inj)$|^Uint63\.\w+$")
+
+
+def axiom_allowed(name, allowed):
+    if name in allowed or is_primitive(name):
+        return True
+    return FLOAT_SPEC in allowed and bool(FLOAT_SPEC_RE.match(name))
+
+
 TRUSTED_BASE_COMMON = [
     "Coq 8.16.1 kernel incl. the vm_compute reduction machine (native_compute not used)",
     "hand-written Gallina model under /verif/coq/Model tied to /repo by the correspondence harness /verif/vcheck (Python 3.12, NumPy) - differential testing, not proof",
@@ -272,7 +286,8 @@ class Ctx:
                 self.notes["coqchk_s"] = round(self.notes.get("coqchk_s", 0) + dt2, 1)
                 m2 = re.search(r"\* Axioms:(.*?)\* Constants/Inductives relying on type-in-type", out2, re.S)
                 chk_ax = [l.strip() for l in (m2.group(1).splitlines() if m2 else []) if l.strip() and l.strip() != "<none>"]
-                declared = [a for a in chk_ax if not (a.startswith("Coq.Floats.PrimFloat.") or a.startswith("Coq.Numbers.Cyclic.Int63."))]
+                declared = [a for a in chk_ax if not (a.startswith("Coq.Floats.PrimFloat.") or a.startswith("Coq.Numbers.Cyclic.Int63.")
+                                                      or (FLOAT_SPEC in allowed and a.startswith("Coq.Floats.FloatAxioms.")))]
                 self.notes.setdefault("coqchk_axioms_beyond_primitives", [])
                 self.notes["coqchk_axioms_beyond_primitives"] = sorted(set(self.notes["coqchk_axioms_beyond_primitives"]) | set(declared))
                 ok_names = {"Coq.Logic.FunctionalExtensionality.functional_extensionality_dep", "Coq.Reals.ClassicalDedekindReals.sig_not_dec",
@@ -282,7 +297,7 @@ class Ctx:
                     self.violation("proof", "coqchk does not accept Properties/%s.vo cleanly (rc=%s, axioms %s)" % (fbase, rc2, declared),
                                    {"theorem": "coqchk:Properties/%s" % fbase, "log_tail": out2[-2000:]}, no_input=True)
             for n, axs in zip(names, blocks):
-                ax_ok = all((a in allowed) or is_primitive(a) for a in axs)
+                ax_ok = all(axiom_allowed(a, allowed) for a in axs)
                 self.obligations.append((n, ax_ok, axs))
                 if not ax_ok:
                     good = False
